@@ -50,9 +50,12 @@ Inductive policy :=
 | PNoCacheMaxAge (n : Z)   (* Cache-Control: no-cache, max-age=n *)
 | PRaw (id : Z).           (* any other header set, known to the model only by a number: other letter
                               case (No-Cache, NO-STORE, MAX-AGE=..), white space, quoted arguments,
-                              several Cache-Control lines; its text lives in the harness *)
+                              several Cache-Control lines (joined by the loader before the library
+                              sees them); its text lives in the harness *)
 
-(* The answers of the library for a header set, as the loader uses them:
+(* The answers of the library for a header set, as the loader uses them.  The loader first joins
+   several Cache-Control header lines into one comma separated line (fix f797550), so the library
+   is asked about ALL directives of the response:
    cc_store    = (err == nil && len(reasons) == 0) of cachecontrol.CachableResponse
    cc_lifetime = Some n when the expiry returned by CachableResponse is (time of the call) + n
                  seconds, None when it is the ZERO time.Time
@@ -172,7 +175,8 @@ Definition engine_set (cfg : config) (st : state) (k : url) (d : doc) (e : etime
    `if shouldCache && d.cacheEngine != nil { Set(u, doc, expireTime) }; return doc` *)
 Definition store_and_return (cfg : config) (st : state) (u : url) (p : policy) (t0 : Z) (d : doc)
   : state * res doc :=
-  (* cachecontrol.CachableResponse, requiresRevalidation: shouldCache, expireTime *)
+  (* Cache-Control lines joined; cachecontrol.CachableResponse, requiresRevalidation:
+     shouldCache, expireTime *)
   let should_cache := storable cfg p in
   let expire := expiry_of (cc_lifetime cfg p) t0 in
   if should_cache && cache_on cfg then
